@@ -932,6 +932,19 @@ def run(ctx, rep):
     ns_ = purity.check_class_state(ctx, rep, 'C09.S', only=lambda m: m.name in BD_MODULES)
     if ns_ < 2:
         rep.incomplete('C09.S', '*', '', f"only {ns_} classmethods found in the birth-death modules")
+    rep.rule('C09.H', "the birth-death models invalidate what they keep when any of their parameters changes (C11.H handler rules and C11.M memo rules on the birth-death modules)")
+    from props import c11 as _c11
+    from sa.members import Kinds as _Kinds
+    from sa.report import RuleProxy as _RP2
+    _kinds = _Kinds(ctx.classes)
+    _nh = 0
+    for _cls in sorted(ctx.classes.classes.values(), key=lambda c: c.qualname):
+        if _cls.module.name in BD_MODULES and not _cls.is_abstract() and _cls.has_base('torchtree.core.parametric.Parametric'):
+            _nh += 1
+            _c11.check_handlers(ctx, _RP2(rep, 'C09.H', 'handlers::'), _kinds, _cls)
+    _c11.check_memo_keys(ctx, _RP2(rep, 'C09.H', 'memo::'), only=lambda m_: m_.name in BD_MODULES)
+    if _nh < 2:
+        rep.incomplete('C09.H', '*', '', f"only {_nh} birth-death model classes found")
     rep.rule('C09.O', "a constructor option filled in a from_json is read from the JSON key of the same name; options passed are declared by the constructor")
     rep.rule('C09.K', "BDSKModel._call passes each keyword from the attribute of the same name; epidemiological conversion satisfies λ=Rδ, μ+ψ=δ, ψ=sδ (r: μ+rψ=δ)")
     rep.rule('C09.U', "every self.<member> read by the birth-death model classes resolves")
